@@ -12,7 +12,10 @@ def run(ctx):
         jobs.append(dict(cmd=[exe, "--mode", "text", "--n", str(100000 if q else 300000), "--seed", str(ctx.seed * 1000 + i)], variant="asan", tag="text seed%d" % i, san_ctx="addr-text"))
         jobs.append(dict(cmd=[exe, "--mode", "native", "--n", str(2500 if q else 6000), "--seed", str(ctx.seed * 1000 + i)], variant="asan", tag="native seed%d" % i, san_ctx="addr-native"))
     jobs.append(dict(cmd=[exe, "--mode", "ports"], variant="asan", tag="ports", san_ctx="addr-ports"))
-    res = core.run_jobs(ctx, jobs, timeout=600 if q else 3000)
+    for j in jobs:      # single-threaded deterministic drivers: not finishing is a call that never returns (e.g. a cycle in a bucket chain)
+        j.setdefault("hang_is_violation", True)
+        j.setdefault("hang_key", "symptom=hang (an address call never returned)")
+    res = core.run_jobs(ctx, jobs, timeout=240 if q else 3000)
     tot = {}
     for job, r in res:
         for o in r.json_lines():
